@@ -134,6 +134,35 @@ func checkC18(c *Ctx, w *World) {
 			okClamp = good
 		}
 		c.check(okClamp, "C18.clamp", "backoff: upper bound", p.pos(bo.Pos()), "the returned duration is the maximum, or a value for which 'value > max' was tested false on that path", why)
+		// necessary for "at least the base delay" and "non-decreasing in the retry count": inside the loop the
+		// delay is only ever multiplied by a constant ≥ 1 (and the loop variable is the value later clamped)
+		growOK, nmul := true, 0
+		for _, l := range loopsOf(bo) {
+			for b := range l.Blocks {
+				for _, in := range b.Instrs {
+					x, ok := in.(*ssa.BinOp)
+					if !ok || !isFloat(x.Type()) {
+						continue
+					}
+					switch x.Op {
+					case token.MUL:
+						nmul++
+						var k float64 = -1
+						for _, side := range []ssa.Value{x.X, x.Y} {
+							if cst, isC := side.(*ssa.Const); isC && cst.Value != nil {
+								k, _ = constant.Float64Val(constant.ToFloat(cst.Value))
+							}
+						}
+						if k < 1 {
+							growOK = false
+						}
+					case token.SUB, token.QUO, token.ADD:
+						growOK = false
+					}
+				}
+			}
+		}
+		c.check(growOK && nmul == 1, "C18.clamp", "backoff: growth factor", p.pos(bo.Pos()), "each retry multiplies the delay by one constant factor ≥ 1 (necessary for ≥ base and for monotonicity in the retry count; the floating-point argument itself is not decided)", "the delay is not only multiplied by a constant factor ≥ 1 per retry")
 		for i, l := range loopsOf(bo) {
 			k, w2 := l.boundedKind()
 			c.check(k != "", "C18.clamp", fmt.Sprintf("backoff loop#%d", i+1), p.pos(bo.Pos()), "bounded ("+k+"): "+w2, "the retry loop is not bounded by the retry counter")
@@ -759,4 +788,9 @@ func safeNamePattern(pat string) (bool, string) {
 		}
 	}
 	return true, "anchored, slash-free, newline-free class"
+}
+
+func isFloat(t types.Type) bool {
+	b, ok := t.Underlying().(*types.Basic)
+	return ok && b.Info()&types.IsFloat != 0
 }
